@@ -11,6 +11,143 @@ class Crash(BaseException):
     pass
 
 
+# ---------------------------------------------------------------------------------------------- power loss (C10)
+# Journal of file-system effects with their durability: a data write is durable once its file was synced
+# (sync_all / msync) after it, or at once on a handle opened O_SYNC; a directory entry (create, rename) is durable
+# once the directory was synced after it. At the power-loss point every non-durable effect is kept or dropped by a
+# solver-visible decision; the resulting directory is what the fresh process recovers from.
+_orig_file_write = envmodel.file_write
+
+
+def _file_write(x, fm, off, buf, event=True):
+    n = len(fm.extents)
+    _orig_file_write(x, fm, off, buf, event)
+    P = getattr(x, 'power', None)
+    if P is not None:
+        for i in range(n, len(fm.extents)):
+            P['seq'] += 1
+            P['wseq'][(fm.name, i)] = (P['seq'], P['coord']())
+
+
+envmodel.file_write = _file_write
+
+
+def install_power(x):
+    fn, mm = x.fn_models, x.method_models
+    pathstr = lambda v: x.deref(v).v
+
+    def tick(P):
+        P['seq'] += 1
+        return P['seq']
+    for name in ('std::fs::File::create', 'fs::File::create', 'File::create'):
+        def f_create(x, a, e, orig=fn[name]):
+            r = orig(x, a, e)
+            P = getattr(x, 'power', None)
+            if P is not None and r.variant == 'Ok':
+                P['dirops'].append(dict(t='create', path=pathstr(a[0]), seq=tick(P), coord=P['coord']()))
+            return r
+        fn[name] = f_create
+
+    def f_rename(x, a, e, orig=fn['fs::rename']):
+        P = getattr(x, 'power', None)
+        src, dst = pathstr(a[0]), pathstr(a[1])
+        old, obj = x.fs.files.get(dst), x.fs.files.get(src)
+        r = orig(x, a, e)
+        if P is not None:
+            P['dirops'].append(dict(t='rename', src=src, path=dst, old=old, obj=obj, seq=tick(P), coord=P['coord']()))
+        return r
+    fn['fs::rename'] = f_rename
+
+    def f_write_small(x, a, e, orig=fn['fs::write']):
+        r = orig(x, a, e)
+        P = getattr(x, 'power', None)
+        if P is not None:
+            P['small'][pathstr(a[0])] = tick(P)
+        return r
+    fn['fs::write'] = f_write_small
+
+    def m_sync(x, r, a, e, orig=mm[('FileV', 'sync_all')]):
+        res = orig(x, r, a, e)
+        P = getattr(x, 'power', None)
+        if P is not None and res.variant == 'Ok':
+            P['syncs'].append(('dir' if r.is_dir else 'file', r.path, tick(P)))
+        return res
+    mm[('FileV', 'sync_all')] = m_sync
+
+    def m_msync(x, r, a, e, orig=mm[('MmapMutV', 'flush')]):
+        res = orig(x, r, a, e)
+        P = getattr(x, 'power', None)
+        if P is not None and res.variant == 'Ok':
+            P['syncs'].append(('file', r.filev.path, tick(P)))
+        return res
+    mm[('MmapMutV', 'flush')] = m_msync
+
+    def m_open(x, r, a, e, orig=mm[('OpenOptsV', 'open')]):
+        res = orig(x, r, a, e)
+        P = getattr(x, 'power', None)
+        if P is not None and res.variant == 'Ok' and 'o_sync' in r.flags:
+            P['osync'].add(pathstr(a[0]))
+        return res
+    mm[('OpenOptsV', 'open')] = m_open
+
+
+def apply_power_loss(x):
+    """drop or keep every non-durable effect; returns the directives that materialise the same state natively"""
+    P = x.power
+    x.power = None
+    synced = lambda kind, path, seq: any(k == kind and p == path and s > seq for k, p, s in P['syncs'])
+    dirof = lambda p: p.rsplit('/', 1)[0]
+    directives = []
+    wal = sorted(p for p, f in x.fs.files.items() if isinstance(f, envmodel.FileModel))
+    # directory entries first (a file whose creation is lost takes its data with it)
+    renames = {}
+    for op in P['dirops']:
+        if synced('dir', dirof(op['path']), op['seq']):
+            continue
+        if op['t'] == 'create':
+            f = x.fs.files.get(op['path'])
+            if f is not None and isinstance(f, envmodel.FileModel) and not x.flip('keep_create_%d' % op['seq']):
+                directives.append(dict(t='delete_file', file_ord=wal.index(op['path'])))
+                del x.fs.files[op['path']]
+                if op['path'] in x.fs.created_order:
+                    x.fs.created_order.remove(op['path'])
+        elif op['t'] == 'rename':
+            renames.setdefault(op['path'], []).append(op)
+    for dst, rs in renames.items():
+        if not dst.endswith('read_offset_idx_index.db'):
+            continue            # clean-marker file: C17's subject, treated as durable here
+        # only the last rename that reached the disk matters: L = 0 (none) .. len(rs)
+        L = x.choose(len(rs) + 1, 'last_durable_rename') if len(rs) > 0 else 0
+        L = len(rs) - L         # explore "all kept" first
+        if L == len(rs):
+            continue
+        nxt = rs[L]
+        directives.append(dict(t='index_state', before=list(nxt['coord'])))
+        if L == 0:
+            old = rs[0]['old']
+            if old is None:
+                x.fs.files.pop(dst, None)
+            else:
+                x.fs.files[dst] = old
+        else:
+            x.fs.files[dst] = rs[L - 1]['obj']
+        # the name of the temporary file of a lost rename may or may not exist; recovery must not depend on it
+    # data writes
+    for path in wal:
+        f = x.fs.files.get(path)
+        if f is None:
+            continue
+        keep = []
+        for i, ext in enumerate(f.extents):
+            ws = P['wseq'].get((f.name, i))
+            if ws is None or path in P['osync'] or synced('file', path, ws[0]) or x.flip('keep_write_%d' % ws[0]):
+                keep.append(ext)
+            else:
+                directives.append(dict(t='zero_range', file_ord=wal.index(path), _off=ext[0], _len=clen(ext[1])))
+        f.extents = keep
+    return directives
+
+
 def mk(docs, job, cfg):
     cfg = dict(cfg, **job.get('cfg', {}))
     x = engine.mk_exec(docs, cfg)
@@ -21,6 +158,10 @@ def mk(docs, job, cfg):
     sizecap = job.get('sizecap', cfg.get('sizecap', 32 * 2 ** 20))
     conc = job.get('concrete')
     fixed_crash = job.get('crash_at')       # (op index, event index) for concrete replays of the model; None = symbolic
+    power = bool(job.get('power'))
+    schedule = job.get('schedule', 'SyncEach' if power else 'NoFsync')
+    if power:
+        install_power(x)
 
     def driver(x):
         engine.new_world(x, fd_backend=fd)
@@ -39,6 +180,14 @@ def mk(docs, job, cfg):
                 st['crashed'] = (len(ops_out), k, kind)       # index of the interrupted op in the replay script
                 raise Crash()
         x.before_io = before_io
+
+        def openw():
+            if power:
+                return engine._open_walrus(x, consistency, pe, schedule, engine.ROOT)      # uncached: the journal must see it
+            return engine.open_walrus(x, consistency, pe, schedule)
+        if power:
+            x.last_directives = None
+            x.power = dict(seq=0, wseq={}, syncs=[], dirops=[], small={}, osync=set(), coord=lambda: (len(ops_out), st['ev'] - 1))
         pe = BV(z3.BitVecVal(pe_val, 32), 32) if consistency == 'AtLeastOnce' else None
         vars_ = []
         sizes, budgets = [], []
@@ -53,7 +202,7 @@ def mk(docs, job, cfg):
         try:
             st.update(armed=True, op='open', ev=0)
             mark = len(x.io_log)
-            r = engine.open_walrus(x, consistency, pe)
+            r = openw()
             events_per_op.append([k for k, _ in x.io_log[mark:]])
             if r.variant != 'Ok':
                 raise Unsupported('open failed on an empty directory')
@@ -66,13 +215,15 @@ def mk(docs, job, cfg):
                 if kind == 'X':
                     # clean shutdown and restart in a fresh process; the I/O events of the reopen are crash points too
                     ops_out.append(dict(op='restart_process'))
-                    events_per_op.append([])
+                    st.update(op='%s+drop' % i, ev=0)        # the Drop impls run inside the restart op (own event numbering)
+                    mark = len(x.io_log)
                     engine.drop_value(x, w)
+                    events_per_op.append([k_ for k_, _ in x.io_log[mark:]])
                     envmodel.reset_process(x)
                     st.update(op='%s+open' % i, ev=0)
                     mark = len(x.io_log)
                     ops_out.append(dict(op='open'))
-                    r = engine.open_walrus(x, consistency, pe)
+                    r = openw()
                     if r.variant != 'Ok':
                         return dict(job=job, verdict='cex', kind='recover-failed', detail='clean reopen returned Err', ops=ops_out, witness=minimise(x, list(vars_)), crash=None)
                     w = r.f[0]
@@ -133,6 +284,12 @@ def mk(docs, job, cfg):
                         delivered[topic] += k
                     inflight = None
                 events_per_op.append([k_ for k_, _ in x.io_log[mark:]])
+            if power and not job.get('trace_only'):
+                # the power may also fail after the last operation has returned
+                st.update(op='end', ev=0)
+                inflight = None
+                ops_out.append(dict(op='abort_now', abort_at_event=1))
+                envmodel.io_event(x, 'end', '')
         except Crash:
             pass
         st['armed'] = False
@@ -141,10 +298,20 @@ def mk(docs, job, cfg):
                 raise PathEnd()            # histories without a crash are C06's subject
             return dict(job=job, verdict='trace', events=events_per_op, ops=ops_out)
         crash_op, crash_ev, crash_kind = st['crashed']
+        n_pre = {t_: len(v_) for t_, v_ in acked.items()}      # appends acknowledged before the crash (later ones follow the in-flight entries)
+        directives = None
+        if power:
+            directives = apply_power_loss(x)
+            x.last_directives = directives
+            for j, d in enumerate(directives):
+                if d['t'] == 'zero_range':
+                    vars_.append(('pl_off%d' % j, d.pop('_off')))
+                    vars_.append(('pl_len%d' % j, d.pop('_len')))
+                    d['off'], d['len'] = 'pl_off%d' % j, 'pl_len%d' % j
         # ---- the process is gone; a fresh process recovers
         envmodel.reset_process(x)
         try:
-            r = engine.open_walrus(x, consistency, pe)
+            r = openw()
         except Panic as p:
             return dict(job=job, verdict='cex', kind='recover-panic', detail='recovery panicked: %s' % p, ops=ops_out, witness=minimise(x, list(vars_)),
                         crash=[crash_op, crash_ev, crash_kind])
@@ -176,7 +343,7 @@ def mk(docs, job, cfg):
                 engine.drop_value(x, w2)
                 envmodel.reset_process(x)
                 try:
-                    r = engine.open_walrus(x, consistency, pe)
+                    r = openw()
                 except Panic as p:
                     return dict(job=job, verdict='cex', kind='recover-panic', detail='second recovery panicked: %s' % p, ops=ops_out, post=ops_post, witness=minimise(x, list(vars_)), crash=[crash_op, crash_ev, crash_kind])
                 if r.variant != 'Ok':
@@ -255,15 +422,18 @@ def mk(docs, job, cfg):
                     lo = 0
                     hi = d if read_inflight is None else (d + 1 if read_inflight == 'n' else len(ack))
                 ok = False
+                npre = n_pre.get(topic, 0)
+                pre, postack = ack[:npre], ack[npre:]
                 for start in range(lo, hi + 1):
-                    rest = ack[start:]
-                    if ids[:len(rest)] == rest:
-                        tail = ids[len(rest):]
-                        # in-flight append: a prefix (in order) of its entries may follow
-                        if tail == infl[:len(tail)]:
+                    # acknowledged before the crash (from the resume position), then a prefix (in order) of the in-flight
+                    # append's entries, then what was appended after the recovery
+                    for k in range(len(infl) + 1):
+                        if ids == pre[start:] + infl[:k] + postack:
                             ok = True
-                            cls = (start, len(tail))
+                            cls = (start, k)
                             break
+                    if ok:
+                        break
                 if not ok:
                     if consistency == 'StrictlyAtOnce' and len(ids) >= 1 and ids[0] in ack and ack.index(ids[0]) < d:
                         bad = ('c09-redelivery', 'topic %s: entry %s was returned by a completed consuming read before the crash and is delivered again' % (topic, ids[0]))
@@ -280,4 +450,11 @@ def mk(docs, job, cfg):
                         summary=summary, flags=sorted(x.path_flags))
         wit = x.model_values(dict(vars_)) if cfg.get('witness', True) and not conc else None
         return dict(job=job, verdict='ok', ops=ops_out, post=ops_post, witness=wit, crash=[crash_op, crash_ev, crash_kind], summary=summary, flags=sorted(x.path_flags))
+    if power:
+        def driver_p(x):
+            r = driver(x)
+            if isinstance(r, dict):
+                r['power_loss'] = getattr(x, 'last_directives', None)
+            return r
+        return x, driver_p
     return x, driver
